@@ -1,7 +1,170 @@
-import OrdModel.Wallet.Builder
-/-! # C20 — ordinal-aware sends (stub; theorems follow) -/
-namespace Ord.Builder
+import OrdModel.Proofs.BuilderStages
+/-!
+# C20 — ordinal-aware sends never misdirect or burn inscriptions; never panic
 
-theorem c20_stub : vsize 1 [] = 68 := by decide
+Property theorems only.  Model: `OrdModel/Wallet/Builder.lean` (`build` =
+`TransactionBuilder::build_transaction`); helper lemmas: `OrdModel/Proofs/Builder*.lean`.
+
+The theorems of the safety part hold for **every** fee function and dust function (`Env`), every
+wallet state, request and target — no hypothesis at all.  The "never panics" clause is false of
+the code: `c20_no_panic_fails_*` exhibit one concrete wallet state per panic site (each replayed
+on the real builder by `corpus/C20/build.*.txt`).
+-/
+namespace Ord.Builder
+open Ord Ord.Outcome
+
+/-! ## Safety: what a returned transaction satisfies -/
+
+/-- (a) The outgoing sat exists, its outpoint is spent exactly once, exactly one output pays the
+recipient, and that output begins exactly at the outgoing sat's position in the concatenation
+of the inputs: the outgoing sat is the first sat of the single recipient output (and the
+output is non-empty). -/
+theorem c20_outgoing_first_sat_of_recipient (env : Env) (w : Wallet) (r : Request) (tx : Tx)
+    (h : build env w r = .ok tx) : PostA w r tx := by
+  obtain ⟨s6, amount, hf, _, _, _, ha, hoff⟩ := build_ok_decompose h
+  obtain ⟨_, h1, h2, h3, h4, _⟩ := buildFinal_ok hf
+  exact ⟨by rw [inVal_of_lookup ha]; exact hoff, h1, h2, h3, h4⟩
+
+/-- (c) No runic, locked or other inscribed output is spent besides the outgoing one: every
+input other than the outgoing outpoint is a wallet UTXO that `select_cardinal_utxo` admits. -/
+theorem c20_inputs_cardinal (env : Env) (w : Wallet) (r : Request) (tx : Tx)
+    (h : build env w r = .ok tx) : PostC w r tx := by
+  obtain ⟨s6, amount, hf, hin, _⟩ := build_ok_decompose h
+  obtain ⟨rfl, _⟩ := buildFinal_ok hf
+  exact hin
+
+/-- (b) No other inscription goes to the recipient or into fees: every inscribed satpoint other
+than the outgoing one that sits on a spent outpoint lands strictly before the recipient output,
+i.e. inside an earlier output — which by (d) pays a change address. -/
+theorem c20_other_inscriptions_stay (env : Env) (w : Wallet) (r : Request) (tx : Tx)
+    (h : build env w r = .ok tx) : PostB w r tx := by
+  have hA := c20_outgoing_first_sat_of_recipient env w r tx h
+  have hC := c20_inputs_cardinal env w r tx h
+  obtain ⟨s6, amount, _, _, _, hi, _, _⟩ := build_ok_decompose h
+  intro sp hsp hmem hne
+  have h1 : sp.1 = r.outgoing.1 := by
+    rcases hC sp.1 hmem with h1 | ⟨_, hc⟩
+    · exact h1
+    · exfalso
+      have : w.inscriptions.any (fun x => x.1 == sp.1) = true :=
+        List.any_eq_true.2 ⟨sp, hsp, by simp⟩
+      simp [isCardinal, this] at hc
+  have h2 : sp.2 ≠ r.outgoing.2 := fun h2 => hne (Prod.ext h1 h2)
+  have := inscriptionCheck_ok _ _ _ hi sp (List.mem_reverse.2 hsp) h1 h2
+  rw [hA.2.2.2.1, h1]
+  omega
+
+/-- (d) Every output other than the recipient's is wallet change. -/
+theorem c20_outputs_change_or_recipient (env : Env) (w : Wallet) (r : Request) (tx : Tx)
+    (h : build env w r = .ok tx) : PostD r tx := by
+  obtain ⟨s6, _, hf, _⟩ := build_ok_decompose h
+  exact (buildFinal_ok hf).2.2.2.2.2.1
+
+/-- (e) No output is below the dust value of its script. -/
+theorem c20_no_dust (env : Env) (w : Wallet) (r : Request) (tx : Tx)
+    (h : build env w r = .ok tx) : PostE env tx := by
+  obtain ⟨s6, _, hf, _⟩ := build_ok_decompose h
+  exact (buildFinal_ok hf).2.2.2.2.2.2.1
+
+/-- (f) `Value(v)`: the recipient receives at least `v` (and at most `v` + the larger change
+dust value + the fee of one extra output); `Postage`: at most `MAX_POSTAGE` + the fee of one extra
+output; `ExactPostage(p)`: at most `p` + the fee of one extra output. -/
+theorem c20_recipient_value (env : Env) (w : Wallet) (r : Request) (tx : Tx)
+    (h : build env w r = .ok tx) : PostF env r tx := by
+  obtain ⟨s6, _, hf, _⟩ := build_ok_decompose h
+  exact (buildFinal_ok hf).2.2.2.2.2.2.2.1
+
+/-- (g) The fee paid (inputs − outputs) is exactly the fee rate applied to the estimated
+signed size. -/
+theorem c20_fee_exact (env : Env) (w : Wallet) (r : Request) (tx : Tx)
+    (h : build env w r = .ok tx) : PostG env w tx := by
+  obtain ⟨s6, _, hf, _⟩ := build_ok_decompose h
+  exact (buildFinal_ok hf).2.2.2.2.2.2.2.2
+
+/-! ## Concrete wallet states (also used for non-vacuity) -/
+
+def p2tr (i : Nat) : Script := { id := i, len := 34, opReturn := false, addr := true }
+/-- the bare `OP_RETURN` script of `ord wallet burn` -/
+def burnScript : Script := { id := 0, len := 1, opReturn := true, addr := false }
+/-- a witness-v2 address with a 40-byte program (42-byte script) -/
+def wit42 (i : Nat) : Script := { id := i, len := 42, opReturn := false, addr := true }
+def dustOf (s : Script) : Nat := if s.opReturn then 0 else if s.len = 42 then 354 else 330
+/-- `FeeRate(num/den).fee(n)`: `n·num/den` rounded half away from zero -/
+def feeRat (num den : Nat) (n : Nat) : Nat := (2 * num * n + den) / (2 * den)
+def envR (num den : Nat) : Env := { fee := feeRat num den, dust := dustOf }
+def req (rcp : Script) (out : Nat × Nat) (t : Target) (c0 : Script := p2tr 1) : Request :=
+  { outgoing := out, recipient := rcp, change0 := c0, change1 := p2tr 2, target := t }
+def wal (am : List (Nat × Nat)) (ins : List (Nat × Nat) := []) : Wallet :=
+  { amounts := am, inscriptions := ins, locked := [], runic := [] }
+
+/-- non-vacuity of the safety theorems: a send of the inscription at offset 1000 of a 30 000 sat
+UTXO that also carries an inscription at offset 100: padding output 1000 (keeps the other
+inscription), recipient 10 000, change. -/
+example : build (envR 1 1) (wal [(0, 30000), (1, 5000)] [(0, 100), (0, 1000)]) (req (p2tr 0) (0, 1000) .postage)
+    = .ok { inputs := [0], outputs := [(p2tr 2, 1000), (p2tr 0, 10000), (p2tr 1, 18803)] } := by decide
+
+/-- … and one that needs coin selection (two inputs) -/
+example : build (envR 1 1) (wal [(0, 400), (1, 5000), (2, 700)] [(2, 0)]) (req (p2tr 0) (0, 0) (.value 2000))
+    = .ok { inputs := [0, 1], outputs := [(p2tr 0, 2000), (p2tr 2, 3188)] } := by decide
+
+/-! ## "It never panics" is false: one witness per panic site
+
+Each is the wallet state of a `corpus/C20/build.*.txt` line (fee rates 1, 1000, 0.5, 0, 2.5,
+0.01 sat/vB, whose real `FeeRate::fee` tables equal `feeRat` — checked by the corpus line
+`builder.oracle.feeformula`). -/
+
+/-- outgoing UTXO of value 0: `Error::OutOfRange(_, amount - 1)` underflows -/
+theorem c20_no_panic_fails_sub_overflow :
+    build (envR 1 1) (wal [(0, 0)]) (req (p2tr 0) (0, 0) .postage)
+      = .panic "sub-overflow@select_outgoing" := by decide
+
+/-- `deduct_fee`: `total_output_amount.checked_sub(fee).unwrap()` — the 57-vbyte per-input fee
+estimate of `add_value` is below the real 57.5, so at 1000 sat/vB the selected inputs cannot pay -/
+theorem c20_no_panic_fails_unwrap_deduct_fee :
+    build (envR 1000 1) (wal [(1, 1299), (5, 80469), (7, 88294)]) (req (p2tr 0) (5, 0) (.value 546))
+      = .panic "unwrap-none@deduct_fee" := by decide
+
+theorem c20_no_panic_fails_dust :
+    build (envR 1000 1) (wal [(0, 328), (3, 20191), (7, 169001)]) (req (p2tr 0) (0, 0) .postage)
+      = .panic "inv:all_outputs_are_above_dust_limit" := by decide
+
+/-- `ExactPostage(20000)` from a 20 183 sat UTXO at 0.5 sat/vB: the 127 sat excess is too small
+to become a change output and larger than the tolerated slop -/
+theorem c20_no_panic_fails_excess_postage :
+    build (envR 1 2) (wal [(0, 20183)]) (req (p2tr 0) (0, 0) (.exact 20000))
+      = .panic "inv:excess_postage_is_stripped" := by decide
+
+/-- burning (`OP_RETURN` recipient skips the dust check) with a zero target -/
+theorem c20_no_panic_fails_zero_burn :
+    build (envR 0 1) (wal [(8, 546)]) (req burnScript (8, 0) (.exact 0))
+      = .panic "inv:outgoing_sat_is_sent_to_recipient" := by decide
+
+theorem c20_no_panic_fails_consume_sat :
+    build (envR 1000 1) (wal [(2, 110327), (8, 19998), (12, 154997)] [(8, 2226), (8, 16554)])
+        (req (p2tr 0) (8, 16554) .postage)
+      = .panic "inv:deducting_fee_does_not_consume_sat" := by decide
+
+/-- a change address whose output is larger than `ADDITIONAL_OUTPUT_VBYTES` (43) assumes -/
+theorem c20_no_panic_fails_last_output :
+    build (envR 1000 1) (wal [(0, 280002)]) (req (p2tr 0) (0, 68660) .postage (wit42 1))
+      = .panic "inv:last_output_can_pay_fee" := by decide
+
+/-- `Value(10000)`: the recipient ends up below the requested value -/
+theorem c20_no_panic_fails_value_below_target :
+    build (envR 5 2) (wal [(5, 10420), (8, 1)] [(8, 0)]) (req (p2tr 0) (8, 0) (.value 10000))
+      = .panic "unwrap-none@build.value" := by decide
+
+/-- rounding: `fee(111) + fee(43) < fee(154)` at 0.01 sat/vB -/
+theorem c20_no_panic_fails_value_above_target :
+    build (envR 1 100) (wal [(0, 662)]) (req (p2tr 0) (0, 0) (.value 330))
+      = .panic "inv:output_equals_target_value" := by decide
+
+/-- all witnesses use monotone fee functions -/
+theorem feeRat_mono (num den : Nat) : ∀ a b, a ≤ b → feeRat num den a ≤ feeRat num den b := by
+  intro a b h
+  unfold feeRat
+  apply Nat.div_le_div_right
+  have := Nat.mul_le_mul_left (2 * num) h
+  omega
 
 end Ord.Builder
